@@ -66,7 +66,9 @@ def create_multisig_psbt(
             # we're only going to base path level
             path=base_path,
         )
-        hd_pubs[named_global_hd_pubkey_obj.serialize()] = named_global_hd_pubkey_obj
+        # same dictionary key as PSBT.parse uses, so that combining with a parsed
+        # copy of this PSBT does not end up with the xpub twice
+        hd_pubs[named_global_hd_pubkey_obj.raw_serialize()] = named_global_hd_pubkey_obj
 
         if network is None:
             # Set the initial value
